@@ -35,6 +35,10 @@ void vf_cond_pick(int mode);        // whom notify_one wakes among the parked th
 // lock discipline (C03 b): obj is protected by the std::mutex at lock from now on (symbolic build with -DVF_DISCIPLINE only)
 void vf_protect(void *obj, void *lock);
 void vf_unprotect_all(void);
+// lock-region interleaving: the k-th std::mutex acquisition from now on first runs fn() (another thread's operation)
+void vf_inject_arm(void (*fn)(void), int k);
+int vf_inject_pending(void);
+void vf_inject_disarm(void);
 }
 #define VF_ASSERT(c, msg) __CPROVER_assert(!!(c), msg)
 #define VF_ASSUME(c) __CPROVER_assume(!!(c))
